@@ -2,7 +2,7 @@
     then the invariants of the k-stream system. *)
 From Coq Require Import List ZArith Bool Lia ZifyBool.
 From V Require Import Gen.Params Lib.Hex Wire.Varint FlowCtl.Model FlowCtl.ProofsBase
-  SendStream.Model SendStream.ProofsBase SendStream.ProofsInv SendStream.ProofsOut FlowCtl.SendGlue.
+  SendStream.Model SendStream.ProofsBase SendStream.ProofsInv SendStream.ProofsOut SendStream.ProofsCov FlowCtl.SendGlue.
 Import ListNotations.
 Open Scope Z_scope.
 
@@ -11,6 +11,12 @@ Ltac fbrk :=
   | H : context [if ?b then _ else _] |- _ => destruct b eqn:?
   | |- context [if ?b then _ else _] => destruct b eqn:?
   end.
+
+(* robust against upstream changes of the guards of an op: split every if/match in the goal *)
+Ltac ifs := repeat match goal with
+  | |- context [if ?b then _ else _] => destruct b
+  | |- context [match ?x with _ => _ end] => destruct x
+  end; cbn [fst snd].
 
 (** ** The flow-controller code inlined in the C01 model is the FlowCtl model *)
 Lemma fc_refines s :
@@ -211,20 +217,20 @@ Proof.
     destruct (_ && _); [apply vs_same; auto|].
     cbn [fst snd]. apply vs_same; auto;
       repeat match goal with |- context [match ?b with _ => _ end] => destruct b end; reflexivity.
-  - unfold do_ctrl. destruct (queuedReset s); apply vs_same; auto.
+  - unfold do_ctrl. ifs; apply vs_same; auto.
   - unfold do_racked. destruct (nth_error _ _); [|apply vs_same; auto].
     destruct (negb _); [apply vs_same; auto|]. apply dec_vstep; auto.
-  - unfold do_rlost. destruct (nth_error _ _); [|apply vs_same; auto].
-    destruct (negb _); apply vs_same; auto.
+  - unfold do_rlost. ifs; apply vs_same; auto.
   - (* MAX_STREAM_DATA *) unfold do_win. destruct (Z.gtb_spec limit (fcWindow s)); cbn [fst snd].
     + apply (vs_win _ _ _ _ limit); ssimp; auto; lia.
     + apply vs_same; auto.
   - (* MAX_DATA seen through this stream *) unfold do_cwin. destruct (Z.gtb_spec limit (ccWindow s)); cbn [fst snd].
     + apply (vs_cwin _ _ _ _ limit); ssimp; auto; lia.
     + apply vs_same; auto.
-  - unfold do_rel. destruct (isSome _); apply vs_same; auto.
-  - unfold do_enable. apply vs_same; auto.
-  - unfold do_shutdown. destruct (_ && _); apply vs_same; auto.
+  - unfold do_rel. ifs; apply vs_same; auto.
+  - (* enableResetStreamAt: touches no counter, whatever its guards *)
+    unfold do_enable. ifs; apply vs_same; auto.
+  - unfold do_shutdown. ifs; apply vs_same; auto.
 Qed.
 
 (** ** Every frame ever handed to the wire — first transmission, retransmission, split or
@@ -379,14 +385,14 @@ Proof.
   - unfold do_stop. destruct (shutdown s); [exact H|]. destruct (_ && _); [exact H|].
     cbn [fst]. apply (FR_lists s);
       repeat match goal with |- context [match ?b with _ => _ end] => destruct b end; ssimp; auto; lia.
-  - unfold do_ctrl. destruct (queuedReset s); [frsame|exact H].
+  - unfold do_ctrl. ifs; first [exact H | frsame].
   - unfold do_racked. destruct (nth_error _ _); [|exact H].
     destruct (negb _); [frsame|]. apply (dec_FR _ s); [reflexivity|exact H].
-  - unfold do_rlost. destruct (nth_error _ _); [|exact H]. destruct (negb _); frsame.
-  - unfold do_win. destruct (_ >? _); [frsame|exact H].
-  - unfold do_cwin. destruct (_ >? _); [frsame|exact H].
-  - unfold do_rel. destruct (isSome _); [exact H|frsame].
-  - unfold do_enable. frsame.
+  - unfold do_rlost. ifs; first [exact H | frsame].
+  - unfold do_win. ifs; first [exact H | frsame].
+  - unfold do_cwin. ifs; first [exact H | frsame].
+  - unfold do_rel. ifs; first [exact H | frsame].
+  - unfold do_enable. ifs; first [exact H | frsame].
   - unfold do_shutdown. destruct (_ && _); cbn [fst]; [|frsame].
     apply (FR_lists s); ssimp; auto; lia.
 Qed.
@@ -659,16 +665,36 @@ Qed.
 Lemma grun_snoc g ops o : grun_state g (ops ++ [o]) = fst (gstep (grun_state g ops) o).
 Proof. unfold grun_state. rewrite fold_left_app. reflexivity. Qed.
 
+(** the historic ghost flag [late] is never set (C01: step_late_eq), in any stream of any run *)
+Lemma gstep_lateF g o : Forall lateF (strs g) -> Forall lateF (strs (fst (gstep g o))).
+Proof.
+  destruct o; cbn [gstep].
+  - cbn. intros H. apply Forall_app; split; auto. constructor; [reflexivity|constructor].
+  - destruct (nth_error (strs g) i) as [s|] eqn:En; [|auto].
+    destruct (SendStream.Model.step (inject (gcn g) s) o) as [s1 x] eqn:E. cbn [fst strs].
+    intros H. apply Forall_upd; auto. unfold lateF.
+    replace s1 with (fst (SendStream.Model.step (inject (gcn g) s) o)) by (rewrite E; reflexivity).
+    rewrite step_late_eq, inject_late. unfold sets_late. rewrite orb_false_r.
+    exact (nth_error_Forall' lateF _ _ _ H En).
+  - auto.
+  - destruct (b_isNewlyBlocked (gcn g)) as [c1 [b off]]. auto.
+Qed.
+
+Lemma grun_lateF ops : Forall lateF (strs (grun_state ginit ops)).
+Proof.
+  induction ops as [|o ops IH] using rev_ind; [constructor|].
+  rewrite grun_snoc. apply gstep_lateF. exact IH.
+Qed.
+
 Theorem sender_glue_frames_within_credit ops :
   let g := grun_state ginit ops in
-  Forall lateF (strs g) ->
   Forall (fun s => Forall (fun f => f_end f <= writeOffset s) (emitted s)) (strs g).
 Proof.
-  cbn zeta. intros HL.
+  cbn zeta.
   assert (H2 : G2 (grun_state ginit ops)).
   { induction ops as [|o ops IH] using rev_ind.
     - constructor.
-    - rewrite grun_snoc in *. apply gstep_G2; auto. apply IH. eapply gstep_late_back; eauto. }
+    - rewrite grun_snoc. apply gstep_G2; auto. rewrite <- grun_snoc. apply grun_lateF. }
   eapply Forall_impl; [|exact H2]. intros s [_ (_ & _ & He)]. exact He.
 Qed.
 
